@@ -13,7 +13,10 @@ use crate::{
             },
         },
         format::format_date_part,
-        parse::{parse_date_part, parse_format_string, ParseUnit, ParsedDate},
+        parse::{
+            parse_date_part, parse_format_string, remove_escaped_part, remove_part, unescape_part,
+            ParseUnit, ParsedDate,
+        },
     },
     DateTime, DateUtilities,
 };
@@ -99,13 +102,13 @@ impl Date {
         for part in parts {
             // Escaped apostrophes
             if part.starts_with('\u{0000}') {
-                string.replace_range(0..part.len(), "");
+                remove_part(part.chars().count(), &mut string)?;
                 continue;
             }
 
             // Escaped parts
             if part.starts_with('\'') {
-                string.replace_range(0..part.len() - if part.ends_with('\'') { 2 } else { 1 }, "");
+                remove_escaped_part(&part, &mut string)?;
                 continue;
             }
 
@@ -205,9 +208,7 @@ impl Date {
                 // Escape parts starting with apostrophe
                 if part.starts_with('\'') {
                     let part = part.replace('\u{0000}', "'");
-                    return part[1..part.len() - usize::from(part.ends_with('\''))]
-                        .chars()
-                        .collect::<Vec<char>>();
+                    return unescape_part(&part).chars().collect::<Vec<char>>();
                 }
 
                 format_date_part(part, self.days)
